@@ -58,7 +58,16 @@ def render_batch(items: List[Dict[str, Any]]) -> str:
         k = it["k"]
         lam_params = it["lam_params"]
         deco = "require" if it["role"] == "pre" else "ensure"
+        if it["role"] == "inv":
+            out.append("def make_{k}(c1):\n".format(k=k))
+            out.append("    @icontract.invariant(lambda self: {e}, description={d!r})\n".format(e=it["expr"], d="D:" + str(k)))
+            out.append("    class Inv(Holder):\n        pass\n")
+            out.append("    return Inv\n")
+            out.append("F_{k} = make_{k}({c1})\n\n".format(k=k, c1=it["c1"]))
+            continue
         out.append("def make_{k}(c1):\n".format(k=k))
+        if it.get("snapshot_of"):
+            out.append("    @icontract.snapshot(lambda {p}: {p}, name={n!r})\n".format(p=it["snapshot_of"], n="old_" + it["snapshot_of"]))
         out.append("    @icontract.{deco}(lambda {ps}: {e}, description={d!r})\n".format(deco=deco, ps=", ".join(lam_params), e=it["expr"], d="D:" + str(k)))
         out.append("    def f({ps}):\n        return {ret}\n".format(ps=", ".join(it["params"] + it.get("extra_params", [])), ret=it.get("ret", "None")))
         out.append("    return f\n")
@@ -103,7 +112,10 @@ def judge(w, mod: Any, item: Dict[str, Any], twin: exprs.Twin, kwargs: Dict[str,
     del CAPTURED[:]
     exc = None
     try:
-        f(**kwargs)
+        if "invoke" in item:
+            item["invoke"](f)
+        else:
+            f(**kwargs)
     except BaseException as err:  # pylint: disable=broad-except
         exc = err
     case = {"expr": item["expr"], "role": item["role"], "values": {k: repr(v) for k, v in kwargs.items()}, "c1": item["c1"],
@@ -134,6 +146,9 @@ def judge(w, mod: Any, item: Dict[str, Any], twin: exprs.Twin, kwargs: Dict[str,
     all_kwargs = dict(kwargs)
     if item["role"] == "post":
         all_kwargs["result"] = item.get("ret_value")
+    if item.get("snapshot_of"):
+        import types as _types  # pylint: disable=import-outside-toplevel
+        all_kwargs["OLD"] = _types.SimpleNamespace(**{"old_" + item["snapshot_of"]: kwargs[item["snapshot_of"]]})
     # what the condition itself can see: module globals, its own parameters, its closure (not the other call arguments)
     env_for_eval = dict(vars(mod))
     env_for_eval.update({k: v for k, v in all_kwargs.items() if k in item["lam_params"]})
@@ -168,6 +183,10 @@ def judge(w, mod: Any, item: Dict[str, Any], twin: exprs.Twin, kwargs: Dict[str,
                     # CPython did not evaluate this sub-expression at all: handed to C07
                     w.count("lines_for_subexpressions_cpython_skipped")
                     continue
+        if key == "OLD" and "OLD" in item["lam_params"]:
+            if vstr != "a bunch of OLD values":
+                w.violation("C06/wrong-value", "`OLD was {}`".format(vstr[:80]), case, detail)
+            continue
         if key in all_kwargs and (not judged or key in item.get("extra_params", [])):
             # (an argument of the call that is not a parameter of the condition but is named like one of its variables
             # may be listed with either value: the entry is both "an argument of the call" and "a sub-expression")
@@ -252,23 +271,29 @@ def run_batch(w, batch_no: int, n_items: int, guarded_bias: float) -> None:
             continue
         params = env.params()
         lam = used_params(expr, params)
+        snapshot_of = None
         if role == "post" and rng.random() < 0.7:
             expr = "({}) and result is None".format(expr) if rng.random() < 0.5 else "result is None and ({})".format(expr)
             lam = lam + ["result"]
+        if role == "post" and lam and lam[0] != "result" and rng.random() < 0.5:
+            snapshot_of = lam[0]
+            expr = "OLD.old_{p} == {p} and ({e})".format(p=snapshot_of, e=expr)
+            lam = lam + ["OLD"]
         extra = []
         if rng.random() < 0.15:
             # the function (not the condition) has parameters named like a global / the closure variable the condition uses
             extra = [x for x in ("G_INT", "c1", "G_LIST") if x in expr and rng.random() < 0.7]
         items.append({"k": "{}_{}".format(batch_no, i), "expr": expr, "params": params, "lam_params": lam, "role": role,
-                      "c1": env.closure["c1"], "env": env, "shadow": shadow, "ret_value": None, "extra_params": extra})
+                      "c1": env.closure["c1"], "env": env, "shadow": shadow, "ret_value": None, "extra_params": extra,
+                      "snapshot_of": snapshot_of})
     loaded = prog.load_source(render_batch(items), w.scratch())
     mod = loaded.module
     try:
         for it in items:
             env = it["env"]
-            names = [p for p in it["lam_params"] if p != "result"]
+            names = [p for p in it["lam_params"] if p not in ("result", "OLD")]
             try:
-                twin = exprs.Twin(it["expr"], names + (["result"] if "result" in it["lam_params"] else []), ["c1"])
+                twin = exprs.Twin(it["expr"], names + [x for x in ("result", "OLD") if x in it["lam_params"]], ["c1"])
             except Exception as err:  # pylint: disable=broad-except
                 w.mark_inconclusive("twin construction failed for {!r}: {!r}".format(it["expr"], err))
                 continue
@@ -278,6 +303,9 @@ def run_batch(w, batch_no: int, n_items: int, guarded_bias: float) -> None:
                 tw_kwargs = {n: vals[n] for n in names}
                 if "result" in it["lam_params"]:
                     tw_kwargs["result"] = None
+                if "OLD" in it["lam_params"]:
+                    import types as _types  # pylint: disable=import-outside-toplevel
+                    tw_kwargs["OLD"] = _types.SimpleNamespace(**{"old_" + it["snapshot_of"]: vals[it["snapshot_of"]]})
                 tw_kwargs["c1"] = it["c1"]
                 raised, value = twin.evaluate(vars(mod), tw_kwargs)
                 if raised:
@@ -300,6 +328,73 @@ def run_batch(w, batch_no: int, n_items: int, guarded_bias: float) -> None:
         loaded.unload()
 
 
+ATTR_OF = {"a": "v", "b": "w", "s": "name", "xs": "items", "d": "d", "n": "n", "o": "child"}
+
+
+def to_invariant_expr(expr: str) -> str:
+    """Rewrite the parameter names of a generated condition into attributes of ``self``."""
+    tree = ast.parse(expr, mode="eval")
+
+    class T(ast.NodeTransformer):
+        def visit_Name(self, node):  # type: ignore
+            if node.id in ATTR_OF and isinstance(node.ctx, ast.Load):
+                return ast.Attribute(value=ast.Name(id="self", ctx=ast.Load()), attr=ATTR_OF[node.id], ctx=ast.Load())
+            return node
+
+    return ast.unparse(T().visit(tree).body)
+
+
+def run_invariant_batch(w, batch_no: int, n_items: int) -> None:
+    """Invariant conditions (lambda self: ...) violated right after construction."""
+    rng = w.rng
+    items = []
+    for i in range(n_items):
+        env = exprs.Env(rng, {}, with_none=rng.random() < 0.3)
+        g = exprs.Gen(rng, env, max_depth=rng.choice((2, 3)), features={"comprehension", "all", "fstring", "star"})
+        try:
+            expr = to_invariant_expr(g.condition())
+            ast.parse(expr, mode="eval")
+        except (SyntaxError, RecursionError):
+            continue
+        if "self" not in expr:
+            continue
+        items.append({"k": "i{}_{}".format(batch_no, i), "expr": expr, "params": ["self"], "lam_params": ["self"], "role": "inv",
+                      "c1": env.closure["c1"], "env": env, "shadow": {}, "ret_value": None})
+    loaded = prog.load_source(render_batch(items), w.scratch())
+    mod = loaded.module
+    try:
+        for it in items:
+            try:
+                twin = exprs.Twin(it["expr"], ["self"], ["c1"])
+            except Exception:  # pylint: disable=broad-except
+                continue
+            found = None
+            for _ in range(60):
+                vals = materialise(mod, it["env"].values(rng))
+                ctor = {ATTR_OF[k]: vals[k] for k in ATTR_OF}
+                plain = mod.Holder(**ctor)
+                raised, value = twin.evaluate(vars(mod), {"self": plain, "c1": it["c1"]})
+                if raised:
+                    continue
+                try:
+                    if not value:
+                        found = (ctor, plain)
+                        break
+                except Exception:  # pylint: disable=broad-except
+                    continue
+            w.count("conditions_generated")
+            if found is None:
+                w.count("conditions_never_falsy")
+                continue
+            ctor, plain = found
+            it["values"] = {"self": plain}
+            it["invoke"] = lambda cls, ctor=ctor: cls(**ctor)
+            w.count("invariant_conditions_judged")
+            judge(w, mod, it, twin, {"self": plain}, {"c1": it["c1"]})
+    finally:
+        loaded.unload()
+
+
 def run(w) -> None:
     install_hook()
     n_batches = (6000 if w.tier == "thorough" else 400)
@@ -307,6 +402,8 @@ def run(w) -> None:
         if b % w.nshards != w.shard:
             continue
         run_batch(w, b, 40, guarded_bias=0.0)
+        if b % 4 == 0:
+            run_invariant_batch(w, b, 40)
     w.exhaustive = False
 
 
